@@ -95,6 +95,10 @@ func labelKey(m *dto.Metric) string {
 	return method + "/" + outcome
 }
 
+// semanticKeys are the leaf fields the properties speak about (C06, C11).
+var semanticKeys = map[string]bool{"loggedAs": true, "value": true, "port": true, "Alg": true, "SSHKeySum": true, "userID": true,
+	"Serial": true, "CA": true, "shell": true, "dns": true, "filePath": true, "keyType": true, "fingerprint": true, "reason": true, "pid": true}
+
 var placeholderValues = map[string]bool{"unknown": true, "root": true, "unknown reason": true, "certificate invalid": true, "IP": true, "": true}
 
 // checkWant: expected leaves ⊆ flattened event; extra leaves must be
@@ -122,7 +126,9 @@ func checkWant(ev *auditevent.AuditEvent, want map[string]string, msg, pid strin
 		}
 	}
 	for k, vs := range flat {
-		if _, ok := want[k]; ok || k == "auditId" || k == "srctype" {
+		if _, ok := want[k]; ok || !semanticKeys[k] {
+			// only the fields the property names are judged; an additional
+			// informational field (schema version, ...) is not a violation
 			continue
 		}
 		for _, v := range vs {
@@ -508,9 +514,8 @@ func execC11Line(pid, msg string, framed bool) Outcome {
 		src := line
 		sane := sanitizeJSON(src)
 		for k, vs := range flatten(evs[0].Ev) {
-			switch k {
-			case "auditId", "host", "machine-id", "type", "outcome", "component", "srctype":
-				continue
+			if !semanticKeys[k] {
+				continue // only fields extracted from the line are judged
 			}
 			for _, v := range vs {
 				if placeholderValues[v] || v == pid || strings.Contains(src, v) || strings.Contains(sane, v) || sanitizedSubstring(src, v) {
